@@ -66,6 +66,30 @@ CHECKS = {
         note=COMMON_NOTE + "Typed reply structs: Ok => no error member and error member => mapped Err are checked; the iff is checked with serde_json::Value replies.",
         technique="Coq proof (inductive invariant over all interleavings of a client LTS) + differential execution + threaded trace oracles",
         design="5/C07"),
+    "C13": dict(
+        text="Theorem (non-interference): in the multi-connection server model, for every interleaving of the connections' bytes and any number of connections, the output a "
+             "connection receives equals the output for its own bytes alone (= the single-connection specification). "
+             "PARTIAL: that the real handle() keeps all per-connection state on its own stack is what the model asserts; it is decided by running 2..16 (thorough: 64) concurrent "
+             "clients with random segmentation/delays beside idle, silent and mid-message-disconnecting peers against varlink::listen and comparing each stream with the prediction for its own sequence.",
+        note=COMMON_NOTE + "OS scheduling is sampled, not enumerated.",
+        technique="Coq proof (non-interference by induction over the event interleaving) + concurrent socket runs against the model's per-connection prediction",
+        design="5/C13"),
+    "C14": dict(
+        text="Theorem: for the pool as configured by the source (growth condition, counter placement, initial size regenerated from server.rs), in every state reachable under any schedule, "
+             "any number of connections, any initial>=1, max>=1: workers <= max (each holds at most one connection) and, when the acceptor is outside execute(), every queued connection up to the "
+             "free capacity has an idle or finishing worker. One inductive invariant. Tie: translation of the condition; complete BFS of the extracted LTS for initial 1..3, max 1..4, <=5 "
+             "connections; the real pool driven through cfg probes (bursts with workers held at chosen probes, free runs with the invariant checked at every probe).",
+        note=COMMON_NOTE + "mpsc FIFO, lock atomicity and thread spawn are modelled. Requires the cfg hooks commit in /repo.",
+        technique="Coq proof (inductive invariant of an LTS instantiated at a translated condition) + state-space search of the extracted model + forced schedules on the real pool",
+        design="5/C14"),
+    "C15": dict(
+        text="Theorems: the accept loop returns Timeout only after a full idle period since the countdown was re-armed and only with a zero counter, and (pool invariant) a zero counter means "
+             "nothing queued or in service; the stop flag is honoured at the first accept timeout and, being tested once per accepted connection (regenerated fact), no connection is accepted after it "
+             "was seen; when drop() has joined all workers every accepted job has finished (Terminates are queued behind jobs). "
+             "PARTIAL: time, select(), unlink and promptness are the OS: decided by timed scenarios against varlink::listen with one-sided bounds.",
+        note=COMMON_NOTE + "A signal interrupting select() is counted as a full quantum by the code; outside the quantifier.",
+        technique="Coq proof (accept-loop transition system with regenerated constants; drain invariant of the pool LTS) + timed listen() scenarios",
+        design="5/C15"),
 }
 
 ALL = ["C%02d" % i for i in range(1, 21)]
@@ -111,7 +135,7 @@ def main():
     print("wrote MANIFEST.json with %d checks" % len(checks))
 
 
-HOOK_COMMITS = []
+HOOK_COMMITS = ["c7d5cf9"]
 NA = {}
 
 if __name__ == "__main__":
